@@ -99,4 +99,6 @@ func factsStores() {
 		storesIfConds(body(getFor)))
 	emitList("storesGetForRecursion", "pkg/store/bucket.go bucketBlockSet.getFor: arguments of the recursive calls, in order",
 		storesCallArgs(calls(body(getFor), "getFor")))
+	emitList("storesGetForAppends", "pkg/store/bucket.go bucketBlockSet.getFor: how results are appended (recursive results must go through appendMissingBlocks), in order",
+		callSeq(body(getFor), "append", "appendMissingBlocks"))
 }
